@@ -36,6 +36,15 @@ theorem shipped_wiring :
       some ["=Validate output", "@stepOutputServicesScopes", "@stepOutputCircularDeps", "@stepOutputParamsExist", "@stepOutputServicesExist"] := by
   decide
 
+/-- **the shipped wiring is what its YAML declares**: service by service, the checked-in generated container
+(read with go/ast) has the constructor, the dependency arguments in order and the tags that
+internal/gontainer/gontainer.yaml + gontainer_*.yaml (decoded and merged by the real code) declare, todo
+services being wired as the `service todo` error constructor; likewise the decorators.  Both tables are
+regenerated on every run. -/
+theorem yaml_declares_wiring :
+    Generated.wiring = Generated.yamlWiring ∧ Generated.wiringDecorators = Generated.yamlDecorators := by
+  decide
+
 /-- every service of the shipped wiring that is decorated with the verbose switch carries the tag the
 single shipped decorator is attached to -/
 theorem verbose_steps :
